@@ -12,7 +12,7 @@ from . import rep_common as rc
 from . import rep_random as rr
 from .rep_common import Mode
 
-LIMIT = 2 ** 29
+LIMIT = 2 ** 22     # len * (product of norms): exact in TLC's 32-bit integers and float error << 1e-6
 
 
 class NotInteger(Exception):
@@ -166,9 +166,10 @@ def brief(ev):
     return {k: v for k, v in ev.items() if k not in ("post", "dpost", "res")}
 
 
-def run(run, quick):
+def record(run, quick):
+    """drive live objects through seeded random histories; returns (traces, modes)"""
     rng = random.Random(run.seed * 104729 + 11)
-    n_hist, length = (60, 30) if quick else (600, 40)
+    n_hist, length = (60, 30) if quick else (800, 40)
     traces, modes = [], []
     for i in range(n_hist):
         mode = MODES[i % len(MODES)]
@@ -188,9 +189,13 @@ def run(run, quick):
             hist = [brief(ev) for ev in rec.events[-4:]]
             run.violation("trace:%s:%s" % (mode, json.dumps(hist, sort_keys=True)[:300]), "trace:raised",
                           dict(mode=str(mode), after=hist, error="%s: %s" % (type(e).__name__, e)))
+    return traces, modes
+
+
+def finish(run, recorded, rejected):
+    traces, modes = recorded
     if not traces:
         return
-    rejected = validate(run, traces, "RepTrace")
     n_ok = len(traces) - len(rejected)
     run.traces += n_ok
     run.evaluations += sum(len(t["events"]) for t in traces)
